@@ -59,7 +59,7 @@ func gnNotePath(p *gpb.Path) {
 	}
 }
 
-// gnKeyOracleTerm prints the key_oracle (fmt %g of every float seen, Decimal64 conversions).
+// gnKeyOracleTerm prints the key_oracle (KeyValueAsString of every float seen, Decimal64 conversions).
 func gnKeyOracleTerm(p *reg.Pkg) string {
 	bitsSorted := make([]uint64, 0, len(floatsSeen))
 	for b := range floatsSeen {
@@ -68,7 +68,7 @@ func gnKeyOracleTerm(p *reg.Pkg) string {
 	sort.Slice(bitsSorted, func(i, j int) bool { return bitsSorted[i] < bitsSorted[j] })
 	var g []string
 	for _, b := range bitsSorted {
-		g = append(g, fmt.Sprintf("(%d,%s)", b, coqStr(fmt.Sprintf("%g", floatsSeen[b]))))
+		g = append(g, fmt.Sprintf("(%d,%s)", b, coqStr(keyFloatText(floatsSeen[b]))))
 	}
 	var ks [][2]int64
 	for k := range gnDecSeen {
@@ -917,4 +917,14 @@ func gnStringKeyCase(p *reg.Pkg, tf *treeFile, sum *Summary, s gnListSite, str s
 		}
 	}
 
+}
+
+// keyFloatText is the text ygot.KeyValueAsString gives a float64 (decimal64) key: the models take
+// it as a table (fmt_g / kf), so that they follow the implementation's choice of format.
+func keyFloatText(f float64) string {
+	s, err := ygot.KeyValueAsString(f)
+	if err != nil {
+		return fmt.Sprintf("%g", f)
+	}
+	return s
 }
